@@ -240,11 +240,16 @@ func c05ScenariosRaw() []c05Scen {
 		run: func(in c05In) c05Out {
 			return c05ReqHdr(in, func(h *RequestHeader) { h.SetCanonical(b("X-Name"), b(in.s)) })
 		}})
-	// the generic setter routed to the special fields
-	for _, k := range []string{"Host", "User-Agent", "Content-Type", "Cookie", "Connection", "Trailer", "Referer", "Content-Length", "Transfer-Encoding"} {
-		k := k
-		out = append(out, c05Scen{id: "RequestHeader.Set(" + k + ",V)", creates: []string{strings.ToLower(k)}, carrier: val, isTrail: k == "Trailer",
-			run: func(in c05In) c05Out { return c05ReqHdr(in, func(h *RequestHeader) { h.Set(k, in.s) }) }})
+	// every generic setter variant (each has its own copy/sanitise step before the shared dispatch) routed to every
+	// field the library stores specially or manages itself: the full product variant x special name
+	reqKVC := append(append([]rkv(nil), reqKV...), rkv{"SetCanonical", func(h *RequestHeader, k, v string) { h.SetCanonical(b(k), b(v)) }})
+	for _, s := range reqKVC {
+		s := s
+		for _, k := range []string{"Host", "User-Agent", "Content-Type", "Cookie", "Connection", "Trailer", "Referer", "Content-Length", "Transfer-Encoding", "Content-Encoding"} {
+			k := k
+			out = append(out, c05Scen{id: "RequestHeader." + s.n + "(" + k + ",V)", creates: []string{strings.ToLower(k)}, carrier: val, isTrail: k == "Trailer",
+				run: func(in c05In) c05Out { return c05ReqHdr(in, func(h *RequestHeader) { s.f(h, k, in.s) }) }})
+		}
 	}
 	type rv struct {
 		n       string
@@ -366,10 +371,14 @@ func c05ScenariosRaw() []c05Scen {
 		run: func(in c05In) c05Out {
 			return c05RespHdr(in, func(h *ResponseHeader) { h.SetCanonical(b("X-Name"), b(in.s)) })
 		}})
-	for _, k := range []string{"Content-Type", "Server", "Set-Cookie", "Connection", "Trailer", "Content-Encoding", "Date", "Content-Length", "Transfer-Encoding"} {
-		k := k
-		out = append(out, c05Scen{id: "ResponseHeader.Set(" + k + ",V)", resp: true, creates: []string{strings.ToLower(k)}, carrier: val, isTrail: k == "Trailer",
-			run: func(in c05In) c05Out { return c05RespHdr(in, func(h *ResponseHeader) { h.Set(k, in.s) }) }})
+	respKVC := append(append([]pkv(nil), respKV...), pkv{"SetCanonical", func(h *ResponseHeader, k, v string) { h.SetCanonical(b(k), b(v)) }})
+	for _, s := range respKVC {
+		s := s
+		for _, k := range []string{"Content-Type", "Server", "Set-Cookie", "Connection", "Trailer", "Content-Encoding", "Date", "Content-Length", "Transfer-Encoding"} {
+			k := k
+			out = append(out, c05Scen{id: "ResponseHeader." + s.n + "(" + k + ",V)", resp: true, creates: []string{strings.ToLower(k)}, carrier: val, isTrail: k == "Trailer",
+				run: func(in c05In) c05Out { return c05RespHdr(in, func(h *ResponseHeader) { s.f(h, k, in.s) }) }})
+		}
 	}
 	type pv struct {
 		n       string
@@ -1080,7 +1089,8 @@ func TestVerif_C05(t *testing.T) {
 	t0 := time.Now()
 	maxLen := vrt.Pick(r, 3, 4)
 	payloads := c05Payloads(maxLen)
-	r.Rule(fmt.Sprintf("%d setter scenarios (RequestHeader/ResponseHeader Set/Add/*Bytes* value and name arguments incl. the special-field routes, "+
+	r.Rule(fmt.Sprintf("%d setter scenarios (RequestHeader/ResponseHeader Set/Add/*Bytes* value and name arguments, "+
+		"the full product {Set,Add,SetBytesK/V/KV,AddBytesK/V/KV,SetCanonical} x {every field name the library stores specially or manages itself: Host, User-Agent, Content-Type, Cookie/Set-Cookie, Connection, Trailer, Referer, Server, Date, Content-Encoding, Content-Length, Transfer-Encoding} for the value argument, "+
 		"SetCanonical values, SetStatusMessage, SetMethod, SetRequestURI, SetHost, SetUserAgent, SetContentType, SetProtocol, SetServer, SetReferer, RequestCtx.Redirect, cookie keys/values/domain/path, "+
 		"Set/AddTrailer names, Request.SetRequestURI/SetHost/URI parts, in header-only, complete and chunked+trailer messages) x normalising on/off x "+
 		"every string of <=%d symbols of {a : SP CR LF NUL 0xff ;} and %d multi-line payloads, each embedded at start/middle/end of a benign carrier; plus the CONNECT target of the fasthttpproxy HTTP dialer. "+
